@@ -15,7 +15,7 @@
    order; [live s c] is what is on its way to a poll that is still going to read it;
    [cmsgs ca] is what is still in the cache. *)
 From Coq Require Import List ZArith Bool Arith Permutation.
-From HV Require Import Model.Push Proofs.PushBase Proofs.PushProofs.
+From HV Require Import Model.Push Proofs.PushBase Proofs.PushSub Proofs.PushProofs.
 Import ListNotations.
 
 (* A poll only ever returns, under topic t, messages that were appended to a cache installed
@@ -150,6 +150,47 @@ Theorem C19_fixed_witness_delivers :
     dmsgs 0 (delivered s) = [42%Z].
 Proof. exact witness_fixed_delivers. Qed.
 Print Assumptions C19_fixed_witness_delivers.
+
+(* ---- concurrent subscribes and unsubscribes of one (client, topic) ----
+   subscribe is modelled as its three atomic steps (LoadOrStore on b.messages; topics.Load;
+   topics.LoadOrStore), unsubscribe / offline as Load, Delete, response; any number of them for
+   the same client and topic may be in flight at once (two connections of one id, the Prosumer's
+   re-subscribe loop racing with Subscribe), interleaved with publishes and polls.  All theorems
+   above quantify over these schedules too.  In addition: the cache a subscription installed
+   remains the cache of its (client, topic) along every run from every reachable state, until an
+   unsubscribe / heartbeat-offline of exactly that pair reaches its Delete; no racing subscribe
+   replaces it.  So a message accepted into it stays where the client's polls look for it
+   (C19_fixed_exactly_once_in_order then says it is handed over exactly once, in order). *)
+Theorem C19_subscription_cache_stable : forall b pre s sched s',
+  run (init_of b) pre = Some s -> run s sched = Some s' ->
+  forall id k c, tget id k (table s) = Some c ->
+  tget id k (table s') = Some c \/
+  exists mid s1, run s mid = Some s1 /\ (exists post, sched = mid ++ post) /\ deleting s1 id k.
+Proof. exact subscription_cache_stable. Qed.
+Print Assumptions C19_subscription_cache_stable.
+
+(* the racing run on the code as it is (LoadOrStore): second subscribe false, message delivered *)
+Theorem C19_subscribe_race_delivers :
+  exists s, run init_fixed sub_race = Some s /\ run_avoiding hazard init_fixed sub_race = Some s /\
+    sub_result s 0 = Some true /\ sub_result s 1 = Some false /\ pub_result s 2 = Some [(1, true)] /\
+    tget 1 7 (table s) = Some 0 /\ poll_result s 0 = Some (RBatch [(7, 0, 0, [42%Z])]) /\
+    dmsgs 0 (delivered s) = [42%Z].
+Proof. exact sub_race_atomic_delivers. Qed.
+Print Assumptions C19_subscribe_race_delivers.
+
+(* the same run when the insert is topics.Store (existence check and insert not one atomic step,
+   [run_nonatomic]): the second subscribe replaces the cache that holds the accepted message; the
+   message is in no cache of the table, in no batch, delivered to nobody; the client's poll waits *)
+Theorem C19_refuted_subscribe_store :
+  exists s ca, run_nonatomic init_fixed sub_race = Some s /\
+    sub_result s 0 = Some true /\ sub_result s 1 = Some true /\ pub_result s 2 = Some [(1, true)] /\
+    nth_error (caches s) 0 = Some ca /\ cacc ca = [42%Z] /\ cmsgs ca = [42%Z] /\
+    tget 1 7 (table s) = Some 1 /\
+    (forall id k, tget id k (table s) <> Some 0) /\
+    delivered s = [] /\ poll_result s 0 = None /\
+    nth_error (chans s) 0 = Some VEmpty.
+Proof. exact sub_race_store_refuted. Qed.
+Print Assumptions C19_refuted_subscribe_store.
 
 (* ---- non-vacuity ---- *)
 
